@@ -7,7 +7,10 @@ From Juniper Require Import Common.Base Iter.Syntax.
      Item x : (x, true) / (x, nil)
      End    : (_, false) / (_, stream.End)
      Err e  : (_, err), streams only
-     Pan    : the call panicked (Chunk with a negative size)
+     Pan    : the call panicked (Chunk with a negative size, a panicking callback, a scripted
+              source's EvPanic).  No combinator recovers anything: the panic passes through
+              every Next on the way out, and the state a model call returns together with Pan
+              is what the combinator's fields hold at that moment
      Out    : the model ran out of fuel (never happens with the fuel used by the runners:
               Proofs: [inext_fuel_enough], [snext_fuel_enough]) *)
 Inductive res (A : Type) : Type := Item (x : A) | End | Err (e : Z) | Pan | Out.
@@ -117,9 +120,27 @@ Definition count_close (id : nat) (log : list sev) : nat := length (filter (is_c
 Definition pulls_of (ids : list nat) (log : list sev) : list Z :=
   map (fun id => Z.of_nat (count_next id log)) ids.
 
-(* callbacks: the k-th invocation (0-based) of a [failing] callback returns its error *)
+(* callbacks: the k-th invocation (0-based) of a [failing] callback fails ... *)
 Definition fails_now (fl : failing) (calls : nat) : bool :=
   match fail_at fl with Some k => (k =? calls)%nat | None => false end.
+(* ... by panicking or (streams only) by returning its error *)
+Definition fail_res {A} (fl : failing) : res A :=
+  if fail_panic fl then Pan else Err (fail_err fl).
+(* iterator callbacks cannot return an error: a [failing] record that does not panic is ignored *)
+Definition panics_now (fl : failing) (calls : nat) : bool := fail_panic fl && fails_now fl calls.
+
+(* result of one invocation of a reduction function (Reduce) *)
+Inductive cbres (A : Type) : Type := CbOk (a : A) | CbErr (e : Z) | CbPanic.
+Arguments CbOk {A} a.
+Arguments CbErr {A} e.
+Arguments CbPanic {A}.
+Definition cb_fail {A} (fl : failing) : cbres A :=
+  if fail_panic fl then CbPanic else CbErr (fail_err fl).
+(* Reduce with +: the accumulator of the model carries the number of invocations so far *)
+Definition ssum_step (fl : failing) (a : nat * Z) (x : Z) : cbres (nat * Z) :=
+  if fails_now fl (fst a) then cb_fail fl else CbOk (S (fst a), snd a + x).
+Definition isum_step (fl : failing) (a : nat * Z) (x : Z) : option (nat * Z) :=
+  if panics_now fl (fst a) then None else Some (S (fst a), snd a + x).
 
 (* peekable[T]{inner, curr, has} (same shape in package iterator and package stream) *)
 Record pk (St : Type) : Type := mkPk { pk_has : bool; pk_curr : Z; pk_in : St }.
